@@ -173,8 +173,9 @@ fn execute(exe: &str, dir: &str, id: u64, text: &str, route: &Route, opts: &[Str
     }
     // some inputs start with blank lines / indentation (both formats allow leading white space)
     let padded;
-    let text = if id % 5 == 3 {
-        padded = format!("\n  \t{text}");
+    // (chosen by a hash of the run number, so that it does not run in step with the cycles of routes and formats)
+    let text = if (id.wrapping_mul(0x9E37_79B9_7F4A_7C15) >> 33) % 3 == 0 {
+        padded = format!("{}{text}", ["\n  \t", "\n", " ", "\r\n"][(id % 4) as usize]);
         padded.as_str()
     } else {
         text
